@@ -51,6 +51,7 @@ class World(object):
         self.ancestors = []
         self.by_cls = {}
         self.enums = []
+        classgen.gen_shape.hidden_locals = True     # (C07 only: local classes that no module path can name)
         for _ in range(rng.randint(2, 4)):
             self.add(classgen.gen_shape(rng))
         if rng.random() < 0.7:
@@ -68,7 +69,7 @@ class World(object):
                 if link.local:
                     if rng.random() < 0.25:
                         # registered under a custom name only ("name: custom name used in the __jsonclass__ attribute")
-                        self.cfg.classes.add(link.cls, "Alias_" + link.cls.__name__)
+                        self.cfg.classes.add(link.cls, rng.choice(["Alias_", "app.models."]) + link.cls.__name__)
                         self.aliased.add(link.cls)
                         if rng.random() < 0.5:
                             # ... while ANOTHER local class (an older generation, a factory-made twin) is registered
